@@ -247,8 +247,9 @@ class Program:
             for c in r.c:
                 if c.k in ('CXXMethodDecl', 'FunctionDecl') and 'id' in c:
                     targs = [x.get('v') for x in c.c if x.k == 'TemplateArgument']
-                    if targs and all(t is not None for t in targs):
-                        self.spec_targs[(tu, c['id'])] = [int(t) != 0 for t in targs]
+                    if targs and any(t is not None for t in targs):
+                        # non-type (bool) arguments by position; type arguments are not needed by the engine
+                        self.spec_targs[(tu, c['id'])] = [(int(t) != 0) if t is not None else None for t in targs]
             for c in r.c:
                 if c.k in ('CXXMethodDecl', 'FunctionDecl') and _has_body(c):
                     if 'parent' in r and 'parent' not in c:
